@@ -62,7 +62,7 @@ func isStoreVal(target, val string) func(Site) bool {
 }
 
 func propC04(c *Ctx) {
-	c.Explanation = "Decides structural necessary conditions of window/MSS discipline for all inputs: (N1) the window field written by sendTCP is a lossless conversion: the receive window is clamped to 0xffff before uint16() (interval analysis); (N2) the advertised right edge rcvAcc moves only forward: its only store outside the constructor is guarded by rcvAcc.LessThan(new) and stores exactly that new value, and the advertisement is (rcvAcc-rcvNxt) >> rcvWndScale; (N3) maxPayloadSize only shrinks, is at least 1, and is computed as MTU - TCP header - the largest option block the stack can send (timestamps and maximum SACK blocks) - so a full segment with options never exceeds the MTU; (N4) the peer's window is scaled before the sender sees it: in handleSegments `s.window <<= sndWndScale` precedes both handleRcvdSegment calls on the ACK branch, and the sender copies seg.window into sndWnd; (N5) sendData sends data only when the segment starts before sndUna+sndWnd, and splits exactly at min(room in the window, maxPayloadSize) (site table shared with C01); (N6) acceptable() computes RFC 793's acceptability table over sequence-space primitives; in-window data is delivered (C01/R3); zero-window detection compares (rcvBufSize-rcvBufUsed)>>scale with 0. (N8) the receive window scale in force is 0 exactly when the peer's SYN carried no window-scale option (recorded as -1) and the announced shift otherwise - a peer shift of 0 still enables scaling - and the established receiver takes exactly that value. (N7) zero-window handling: the immediate window update after the application reads is sent exactly when the SCALED window last advertised ((rcvAcc-rcvNxt) >> rcvWndScale, the expression getSendParams returns) was zero; Read notifies the worker exactly when the scaled free space was zero before the bytes left the buffer and is non-zero afterwards; the worker calls nonZeroWindow on that notification bit. (N6s) the window primitives acceptable and sendData are written in (InWindow, Overlap, Add, Size, LessThanEq) equal their definitions for all operands (evaluator shared with C14/S1). NOT decided: the inequality 'bytes in flight <= offered window' over histories of ACKs (needs the sizes of heap-allocated views across calls); the arithmetic of the primitives is C14."
+	c.Explanation = "Decides structural necessary conditions of window/MSS discipline for all inputs: (N1) the window field written by sendTCP is a lossless conversion: the receive window is clamped to 0xffff before uint16() (interval analysis); (N2) the advertised right edge rcvAcc moves only forward: its only store outside the constructor is guarded by rcvAcc.LessThan(new) and stores exactly that new value, and the advertisement is (rcvAcc-rcvNxt) >> rcvWndScale; (N3) maxPayloadSize only shrinks, is at least 1, and is computed as MTU - TCP header - the largest option block the stack can send (timestamps and maximum SACK blocks) - so a full segment with options never exceeds the MTU; (N4) the peer's window is scaled before the sender sees it: in handleSegments `s.window <<= sndWndScale` precedes both handleRcvdSegment calls on the ACK branch, and the sender copies seg.window into sndWnd; (N5) sendData sends data only when the segment starts before sndUna+sndWnd, and splits exactly at min(room in the window, maxPayloadSize) (site table shared with C01); (N6) acceptable() computes RFC 793's acceptability table over sequence-space primitives; in-window data is delivered (C01/R3); zero-window detection compares (rcvBufSize-rcvBufUsed)>>scale with 0. (N8) the receive window scale in force is 0 exactly when the peer's SYN carried no window-scale option (recorded as -1) and the announced shift otherwise - a peer shift of 0 still enables scaling - and the established receiver takes exactly that value. (N7) zero-window handling: the immediate window update after the application reads is sent exactly when the SCALED window last advertised ((rcvAcc-rcvNxt) >> rcvWndScale, the expression getSendParams returns) was zero; Read notifies the worker exactly when the scaled free space was zero before the bytes left the buffer and is non-zero afterwards; the worker calls nonZeroWindow on that notification bit. (N6s) the window primitives acceptable and sendData are written in (InWindow, Overlap, Add, Size, LessThanEq) equal their definitions for all operands (evaluator shared with C14/S1). (N3m) the MTU chain (link MTU - network header, capped; header room), FindWndScale and the SYN-cookie MSS encoder (largest table entry not above the peer's MSS). NOT decided: the inequality 'bytes in flight <= offered window' over histories of ACKs (needs the sizes of heap-allocated views across calls); the arithmetic of the primitives is C14."
 	an := NewAbsint(c.P)
 	n1 := c.Rule("N1", "K8 narrowing", "window field conversion is lossless", 1)
 	if fn := c.Fn(n1, "tcp.sendTCP"); fn != nil {
@@ -229,6 +229,14 @@ func propC04(c *Ctx) {
 		c.CheckSitesPresent(n3m, fn, []SiteSpec{
 			{Kind: "call", Target: "(*stack.Route).MTU", Args: []string{"$0"}, Guards: []string{"(0 == phi{$6.MSS | ((*stack.Route).MTU($0) - 20)})"}, N: 0, Why: "an unset MSS option is filled from the route: MTU - TCP header"},
 			{Kind: "call", Target: "tcp.sendTCP", Args: []string{"$0", "$1", "zero", "(*stack.Route).DefaultTTL($0)", "$2", "$3", "$4", "$5", "tcp.makeSynOptions(phi{$6 | partial})"}, Guards: []string{}, Exact: true, N: 1, Why: "a SYN carries no payload, the flags/seq/ack/window handed in and the encoded SYN options"},
+		})
+	}
+
+	if fn := c.Fn(n3m, "tcp.encodeMSS"); fn != nil {
+		i := "phi{(builtin:len(tcp.mssTable) - 1) | (loop - 1)}"
+		c.CheckSites(n3m, fn, []SiteSpec{
+			{Kind: "return", Args: []string{"0"}, Guards: []string{"(" + i + " < 1)"}, Exact: true, N: 1, Why: "smaller than every table entry but the first: index 0"},
+			{Kind: "return", Args: []string{i}, Guards: []string{"!($0 < tcp.mssTable[" + i + "])", "!(" + i + " < 1)"}, Exact: true, N: 1, Why: "SYN cookies carry the LARGEST table entry that does not exceed the peer's MSS (scan from the top, first entry with mss >= entry): the MSS used later is never above what the peer announced"},
 		})
 	}
 
